@@ -633,6 +633,47 @@ def check(prop, tier, seed):
         async def corofn(x):
             return x
 
+        # sync() of two related callables, one after the other: each wrapper calls the callable it was made from
+        import functools as _ft  # noqa: PLC0415
+        from .driver import Accounting as _Acc, Task as _Task  # noqa: PLC0415
+
+        def plain(x):
+            return ("plain", x)
+
+        class Holder:
+            def method(self, x):
+                return ("method", x)
+
+        h_ = Holder()
+        got = []
+
+        def use(f_, *args_):
+            r_ = _Task(L.sync(f_)(*args_), _Acc()).run()
+            got.append(r_[1] if r_[0] == "done" else repr(r_[1]))
+
+        use(plain, 1)
+
+        @_ft.wraps(plain)              # made after `plain` has been through sync(): wraps() copies plain's attributes
+        def decorated(x):
+            return ("decorated", x)
+
+        use(decorated, 1)
+        use(Holder.method, h_, 1)      # the function taken from the class first ...
+        use(h_.method, 1)              # ... then a bound method of it (which shows the function's attributes)
+        use(plain, 2)
+        want_ = [("plain", 1), ("decorated", 1), ("method", 1), ("method", 1), ("plain", 2)]
+        if got != want_:
+            v.violation("C19/sync/wrapper-calls-another-callable", {"engine": "scenario", "expected": want_, "observed": got})
+        # any_iter awaits an awaitable item once: what that yields is the item, awaitable or not
+        from .instruments import Aw as _Aw, Recorder as _Rec  # noqa: PLC0415
+        rec_ = _Rec()
+        inner = _Aw(rec_, "value-of-the-inner-awaitable")
+        outer = _Aw(rec_, inner)
+        r_ = _Task(L.list(L.any_iter([outer])), rec_.acct).run()
+        nawait = sum(1 for e in rec_.log if e["ev"] == "await")
+        if r_[0] != "done" or len(r_[1]) != 1 or r_[1][0] is not inner or nawait != 1:
+            v.violation("C19/any_iter/item-awaited-more-than-once", {"engine": "scenario", "expected": "one await, the inner awaitable as item",
+                                                                     "observed": {"awaits": nawait, "result": repr(r_)[:120]}})
         if L.sync(corofn) is not corofn:
             v.violation("C19/sync/coroutine-function-not-returned-unchanged", {"engine": "toolmachine", "expected": "sync(f) is f", "observed": repr(L.sync(corofn))})
     rnd = random.Random(seed)
